@@ -767,3 +767,149 @@ Proof.
   destruct (Z.eq_dec x b) as [E|E]; [subst; tauto|].
   rewrite (gap_strict b c x E). split; [tauto|]. intros [Q|Hx]; [tauto|]. right. split; auto.
 Qed.
+
+(* ------------------------------------------------------------------ two identical rotations *)
+
+Definition nonneg (p : Z * Z) : Prop := 0 <= fst p /\ 0 <= snd p.
+Definition ver_ok (las : list bool) (p : Z * Z) : Prop :=
+  bad_addrb p = true \/ (is_wrapb p = false /\ verifies las (fst p) (snd p)).
+
+Lemma witness_cases : forall r sa da r', wf r -> 0 <= sa -> 0 <= da -> witness r sa da = Ok r' ->
+  (bad_addrb (sa, da) = true /\ r' = r) \/
+  (bad_addrb (sa, da) = false /\
+   match r_state r with
+   | LasUninitialized => r' = if is_wrapb (sa, da) then with_state r LasDiscovery else r
+   | LasDiscovery => r' = if is_wrapb (sa, da) then with_state (upd r sa da) LasVerification else upd r sa da
+   | LasVerification =>
+       (verifies (r_las r) sa da /\ r' = if is_wrapb (sa, da) then with_state r LasValid else r) \/
+       (~ verifies (r_las r) sa da /\ r' = with_state (upd r sa da) LasDiscovery)
+   | LasValid => r' = upd r sa da
+   end).
+Proof.
+  intros r sa da r' W Hs Hd E. unfold bad_addrb, is_wrapb.
+  destruct (Z.ltb_spec 125 sa) as [A|A]; [left; rewrite witness_bad in E by lia; inversion E; auto|].
+  destruct (Z.ltb_spec 125 da) as [B|B]; [left; rewrite witness_bad in E by lia; inversion E; auto|].
+  right. split; auto. rewrite witness_good in E by (auto; lia).
+  destruct (Z.leb_spec sa 125); try lia. destruct (Z.leb_spec da 125); try lia. cbn [andb].
+  destruct (r_state r).
+  - destruct (da <=? sa); inversion E; auto.
+  - inversion E; auto.
+  - destruct (verify_las_spec r sa da W) as [b [Eb Vb]]; try lia. rewrite Eb in E. destruct b.
+    + left. split; [apply Vb; auto|]. destruct (da <=? sa); inversion E; auto.
+    + right. split; [intro Q; apply Vb in Q; discriminate|]. inversion E; auto.
+  - inversion E; auto.
+Qed.
+
+Lemma witness_wf : forall r sa da r', wf r -> 0 <= sa -> 0 <= da -> witness r sa da = Ok r' -> wf r'.
+Proof.
+  intros r sa da r' W Hs Hd E. destruct (witness_total r sa da W Hs Hd) as [q [Eq [Wq _]]]. congruence.
+Qed.
+
+Lemma run_w_wf : forall passes r r', wf r -> Forall nonneg passes -> run_w r passes = Ok r' -> wf r'.
+Proof.
+  induction passes as [|[sa da] t IH]; intros r r' W F E; simpl in E.
+  - inversion E; subst; auto.
+  - inversion F as [|? ? [F1 F2] Ft]; subst. simpl in F1, F2.
+    destruct (witness r sa da) as [r1| |] eqn:E1; try discriminate. cbn [bind] in E.
+    apply (IH r1 r'); auto. apply (witness_wf r sa da r1); auto.
+Qed.
+
+Lemma las_state_eq_dec : forall a b : las_state, {a = b} + {a <> b}.
+Proof. decide equality. Qed.
+
+Lemma run_w_snoc : forall ps p r r', run_w r (ps ++ [p]) = Ok r' ->
+  exists r1, run_w r ps = Ok r1 /\ witness r1 (fst p) (snd p) = Ok r'.
+Proof.
+  intros ps [sa da] r r' E. rewrite run_w_app in E.
+  destruct (run_w r ps) as [r1| |]; try discriminate. cbn [bind run_w] in E.
+  exists r1. split; auto. simpl. destruct (witness r1 sa da); try discriminate. exact E.
+Qed.
+
+Lemma ver_history : forall passes r r',
+  wf r -> (r_state r = LasUninitialized \/ r_state r = LasDiscovery) -> Forall nonneg passes ->
+  run_w r passes = Ok r' -> r_state r' = LasVerification ->
+  exists pre d ver rD,
+    passes = pre ++ d :: ver /\ run_w r pre = Ok rD /\ r_state rD = LasDiscovery /\
+    is_wrapb d = true /\ witness rD (fst d) (snd d) = Ok r' /\
+    Forall (ver_ok (r_las r')) ver /\ run_w r' ver = Ok r'.
+Proof.
+  induction passes as [|p ps IH] using rev_ind; intros r r' W St F E S'.
+  - simpl in E. inversion E; subst. destruct St; congruence.
+  - apply Forall_app in F. destruct F as [Fps Fp]. inversion Fp as [|? ? [P1 P2] _]; subst.
+    destruct (run_w_snoc _ _ _ _ E) as [r1 [E1 E2]].
+    assert (W1 : wf r1) by (apply (run_w_wf ps r r1); auto).
+    destruct p as [sa da]. simpl in P1, P2, E2.
+    destruct (witness_cases r1 sa da r' W1 P1 P2 E2) as [[B Q]|[B Q]].
+    + subst r'. destruct (IH r r1 W St Fps E1 S') as [pre [d [ver [rD [A1 [A2 [A3 [A4 [A5 [A6 A7]]]]]]]]]].
+      exists pre, d, (ver ++ [(sa, da)]), rD. split; [rewrite A1, <- app_assoc; reflexivity|].
+      split; auto. split; auto. split; auto. split; auto.
+      split; [apply Forall_app; split; auto; constructor; auto; left; exact B|].
+      rewrite run_w_app, A7. cbn [bind run_w]. rewrite E2. reflexivity.
+    + destruct (r_state r1) eqn:S1.
+      * exfalso. subst r'. destruct (is_wrapb (sa, da)); simpl in S'; congruence.
+      * destruct (is_wrapb (sa, da)) eqn:Wr.
+        -- exists ps, (sa, da), [], r1. rewrite Q. repeat split; auto. rewrite <- Q. exact E2.
+        -- exfalso. subst r'. destruct (upd_fields r1 sa da) as [_ [X _]]. congruence.
+      * destruct Q as [[V Q]|[V Q]].
+        -- destruct (is_wrapb (sa, da)) eqn:Wr; [exfalso; subst r'; simpl in S'; discriminate|].
+           subst r'.
+           destruct (IH r r1 W St Fps E1 S') as [pre [d [ver [rD [A1 [A2 [A3 [A4 [A5 [A6 A7]]]]]]]]]].
+           exists pre, d, (ver ++ [(sa, da)]), rD. split; [rewrite A1, <- app_assoc; reflexivity|].
+           split; auto. split; auto. split; auto. split; auto.
+           split; [apply Forall_app; split; auto; constructor; auto; right; auto|].
+           rewrite run_w_app, A7. cbn [bind run_w]. rewrite E2. reflexivity.
+        -- exfalso. subst r'. simpl in S'. discriminate.
+      * exfalso. subst r'. destruct (upd_fields r1 sa da) as [_ [X _]]. congruence.
+Qed.
+
+Lemma first_valid : forall passes r r',
+  r_state r <> LasValid -> run_w r passes = Ok r' -> r_state r' = LasValid ->
+  exists ps p post r1 r2,
+    passes = ps ++ p :: post /\ run_w r ps = Ok r1 /\ r_state r1 <> LasValid /\
+    witness r1 (fst p) (snd p) = Ok r2 /\ r_state r2 = LasValid.
+Proof.
+  induction passes as [|[sa da] t IH]; intros r r' St E S'; simpl in E.
+  - inversion E; subst. congruence.
+  - destruct (witness r sa da) as [r1| |] eqn:E1; try discriminate. cbn [bind] in E.
+    destruct (las_state_eq_dec (r_state r1) LasValid) as [V|V].
+    + exists [], (sa, da), t, r, r1. repeat split; auto.
+    + destruct (IH r1 r' V E S') as [ps [p [post [q1 [q2 [A1 [A2 [A3 [A4 A5]]]]]]]]].
+      exists ((sa, da) :: ps), p, post, q1, q2. split; [rewrite A1; reflexivity|].
+      split; [simpl; rewrite E1; exact A2|]. auto.
+Qed.
+
+Lemma las_two_identical : forall (r : ring) (passes : list (Z * Z)) (r' : ring),
+  length (r_las r) = 128%nat -> (r_state r = LasUninitialized \/ r_state r = LasDiscovery) ->
+  Forall (fun p => 0 <= fst p /\ 0 <= snd p) passes ->
+  run_w r passes = Ok r' -> r_state r' = LasValid ->
+  exists pre d ver v post rD rV,
+    passes = pre ++ d :: ver ++ v :: post /\
+    run_w r pre = Ok rD /\ r_state rD = LasDiscovery /\
+    is_wrapb d = true /\ witness rD (fst d) (snd d) = Ok rV /\ r_state rV = LasVerification /\
+    Forall (fun p => bad_addrb p = true \/ (is_wrapb p = false /\ verifies (r_las rV) (fst p) (snd p))) ver /\
+    is_wrapb v = true /\ verifies (r_las rV) (fst v) (snd v) /\
+    run_w r (pre ++ d :: ver ++ [v]) = Ok (with_state rV LasValid).
+Proof.
+  intros r passes r' W St F E S'.
+  assert (NV : r_state r <> LasValid) by (destruct St; congruence).
+  destruct (first_valid passes r r' NV E S') as [ps [v [post [r1 [r2 [A1 [A2 [A3 [A4 A5]]]]]]]]].
+  subst passes. apply Forall_app in F. destruct F as [Fps Fv].
+  inversion Fv as [|? ? [P1 P2] _]; subst.
+  assert (W1 : wf r1) by (apply (run_w_wf ps r r1); auto).
+  destruct v as [sa da]. simpl in P1, P2, A4.
+  destruct (witness_cases r1 sa da r2 W1 P1 P2 A4) as [[B Q]|[B Q]]; [subst; congruence|].
+  destruct (r_state r1) eqn:S1.
+  - exfalso. subst r2. destruct (is_wrapb (sa, da)); simpl in A5; congruence.
+  - exfalso. subst r2. destruct (is_wrapb (sa, da)); simpl in A5; try discriminate.
+    destruct (upd_fields r1 sa da) as [_ [X _]]. congruence.
+  - destruct Q as [[V Q]|[V Q]]; [|exfalso; subst r2; simpl in A5; discriminate].
+    destruct (is_wrapb (sa, da)) eqn:Wr; [|subst r2; congruence].
+    destruct (ver_history ps r r1 W St Fps A2 S1) as [pre [d [ver [rD [C1 [C2 [C3 [C4 [C5 [C6 C7]]]]]]]]]].
+    exists pre, d, ver, (sa, da), post, rD, r1.
+    split; [rewrite C1, <- app_assoc; reflexivity|].
+    split; auto. split; auto. split; auto. split; auto. split; auto. split; [exact C6|].
+    split; auto. split; auto.
+    rewrite run_w_app, C2. cbn [bind run_w]. destruct d as [sd dd]. simpl in C5. rewrite C5. cbn [bind].
+    rewrite run_w_app, C7. cbn [bind run_w]. rewrite A4, Q. reflexivity.
+  - congruence.
+Qed.
